@@ -574,6 +574,22 @@ pub fn chain_cases() -> Vec<RsCase> {
                 }
             }
         }
+        // random boolean chains: random operator (and / or) and random operand at every link
+        let mut x: u64 = 0x9e3779b97f4a7c15 ^ (n as u64);
+        let mut next = || {
+            x ^= x << 13;
+            x ^= x >> 7;
+            x ^= x << 17;
+            x
+        };
+        for _ in 0..40 {
+            let mut acc = lit(Value::Bool(next() % 2 == 0));
+            for _ in 1..n {
+                let op = if next() % 2 == 0 { "and" } else { "or" };
+                acc = mk_bin(op, acc, lit(Value::Bool(next() % 2 == 0)));
+            }
+            out.push(RsCase { tag: format!("chain random-logic n{}", n), rules: vec![acc], facts: Value::None, env: env.clone(), evals: 1 });
+        }
         // long lists, maps, access paths and unary towers
         let items: Vec<Expr> = (0..n as i128).map(|i| mk_bin("add", lit(Value::Int(i)), lit(Value::Int(1)))).collect();
         out.push(RsCase { tag: format!("list n{}", n), rules: vec![Expr::Vec(items.clone()), idxn(Expr::Vec(items.clone()), n - 1), idxn(Expr::Vec(items.clone()), n)], facts: Value::None, env: env.clone(), evals: 1 });
